@@ -215,6 +215,7 @@ def model(cfg, args):
             raise Usage('-o with multiple inputs')
     invs = []
     outputs = {}
+    out_list = []
     stdout_pipelines = []
     linknames = []
     for k, inp in enumerate(inputs):
@@ -255,6 +256,7 @@ def model(cfg, args):
             stdout_pipelines.append(k)
         elif not isinstance(out, tuple):
             outputs[out] = ('pipeline', k)
+            out_list.append(out)
     link = None
     if last == LD:
         argv = list(cmd[LD]) + ['-o', output if output is not None else 'a.out']
@@ -273,7 +275,12 @@ def model(cfg, args):
             argv += cfg['endfiles']
         link = Inv(LD, argv, 'driver', 'driver', None)
         outputs[output if output is not None else 'a.out'] = 'link'
-    return {'invocations': invs, 'link': link, 'outputs': outputs, 'stdout_pipelines': stdout_pipelines, 'inputs': inputs, 'last': last}
+        out_list.append(output if output is not None else 'a.out')
+    # a command line whose outputs overwrite each other or one of its own inputs has no documented result
+    innames = set(os.path.normpath(x['name']) for x in inputs if not x['lib'])
+    onorm = [os.path.normpath(x) for x in out_list]
+    collision = len(set(onorm)) != len(onorm) or bool(innames & set(onorm))
+    return {'collision': collision, 'invocations': invs, 'link': link, 'outputs': outputs, 'stdout_pipelines': stdout_pipelines, 'inputs': inputs, 'last': last}
 
 
 # ------------------------------------------------------------------ running
